@@ -74,6 +74,9 @@ func (a *Arguments) Get(argumentIndex int) reflect.Value {
 		e := a.args.Exprs[argumentIndex]
 		switch e.Type() {
 		case NodeUnderscore:
+			if a.pipedVal == nil {
+				e.errorf("'_' placeholder used as an argument, but there is no piped value")
+			}
 			return *a.pipedVal
 		default:
 			return a.runtime.evalPrimaryExpressionGroup(e)
